@@ -329,7 +329,7 @@ def three_way(ctx, formal, cases, tally):
                     checked += 1
                     if not v[cl]:
                         viol(f"the Lean clause `{names[cl]}` rejects the output the TLA+ specification prescribes ({which} embedding)")
-                if not v["meta"]:
+                if not v["meta"] and which == "model-value":
                     stat["lean_metadata_clause_false_on_accepted"] += 1
         # --- circuit = Lean, directly on the real public inputs
         if h["acc"]:
